@@ -46,6 +46,11 @@ def check(ctx, adt=T.ANIM_ADT, F=None, only_r1=False):
     # R2: merged duration = maximum of the components' durations; infinite iff Repeat::Infinite (C03/R4)
     c12.check_fold(ctx, F, "R2", "duration", "max_by")
     c03.rule_duration_formula(ctx, "R2")
+    # R3: the terminal values do not depend on the start override: every animated property ends with its own frame at
+    # 100 %, so the value at the end instant (still Active, override on) and after it (Ended, override off) is the same
+    from rules import c01, c10
+    c01.rule_split(ctx, F, "R3")
+    c10.rules_override_scope(ctx, prefix="R3")
     ctx.notes.append("R3 (once ended, values rest) follows from C06/R1 (the accumulator only grows), C02/R3 (Ended "
                      "maps to a constant position) and C09 (update is a function of time)")
     ctx.notes.append("not decided: float behaviour exactly at the end instant of multi-cycle timelines")
